@@ -295,7 +295,33 @@ func vfC17Run(c vfC17Case, ctx *vfCtx) *vfViolation {
 				continue
 			}
 			before := vfDirSnapshot(dir)
-			err, returns := vfUseHandle(st, op.Method, counter)
+			// "fails cleanly": it returns (twice in a row, too) - a call that blocks for good is not clean
+			type outcome struct {
+				err     error
+				returns bool
+				p       interface{}
+			}
+			doneCh := make(chan outcome, 1)
+			go func() {
+				var o outcome
+				defer func() {
+					o.p = recover()
+					doneCh <- o
+				}()
+				vfUseHandle(st, op.Method, counter)
+				o.err, o.returns = vfUseHandle(st, op.Method, counter)
+			}()
+			var err error
+			var returns bool
+			select {
+			case o := <-doneCh:
+				if o.p != nil {
+					return vfFail("op %d: %s on a CLOSED handle panics: %v", i, op.Method, o.p)
+				}
+				err, returns = o.err, o.returns
+			case <-time.After(10 * time.Second):
+				return vfFail("op %d: %s called twice on a CLOSED handle does not return (blocked for 10 s)", i, op.Method)
+			}
 			if returns && err == nil {
 				return vfFail("op %d: %s on a CLOSED handle returned nil", i, op.Method)
 			}
